@@ -42,7 +42,7 @@ def gen_value(rng, U: Universe, f: FS, hostile: float = 0.15) -> Any:
     if k == "bool":
         return rng.random() < 0.5
     if k == "float":
-        return rng.choice([0.0, 1.0, 1.5, -2.25, 1e10, 0.1])
+        return rng.choice([0.0, 1.0, 1.5, -2.25, 1e10, 0.1, -0.0, 0.0, -0.0])  # (0.0 == -0.0, yet they are two values: their text differs)
     if k == "none":
         return None
     if k == "enum":
@@ -66,7 +66,7 @@ def gen_value(rng, U: Universe, f: FS, hostile: float = 0.15) -> Any:
         I, St, L = m[f"{P_}IntT"], m[f"{P_}StrT"], m[f"{P_}ListOf"]
         return rng.choice([None, I(), St(), L(I()), L(St()), L(L(I())), L(L(St())), L(()), L(None), (I(),), (St(),)])
     if k == "nested":
-        return rng.choice([((1, 2), 3), ((1, 2, 3),), (1, (2, 3)), ((1,), (2, 3)), (1, 2, 3), ((),), (), ("pkg", ("mod", "cls")), ("pkg", ("mod",), "cls"), (("pkg", "mod"), "cls")])
+        return rng.choice([(1.0, 2.0, 3.0), ((1, 2), 3), ((1, 2, 3),), (1, (2, 3)), ((1,), (2, 3)), (1, 2, 3), ((),), (), ("pkg", ("mod", "cls")), ("pkg", ("mod",), "cls"), (("pkg", "mod"), "cls")])
     if k == "flags":
         return U.module.__dict__[f.ann](rng.choice([0, 1, 2, 3, 4, 8, 12, 5]))
     if k == "senum":
